@@ -33,6 +33,16 @@ def proj_style(st, links):
                 link=0 if not st.link else links.setdefault(st.link, len(links) + 1))
 
 
+_MEANING = {}      # id(style) -> (style, what it meant when it was created)
+
+
+def remember(st):
+    """Snapshot of what a style means, taken when it is created: a later in-place change of a shared Style
+    object (e.g. by a NO_COLOR console) must show up as a difference, not silently change the expectation."""
+    _MEANING[id(st)] = (st, dict(attrs=[i + 1 for i, a in enumerate(ATTRS) if getattr(st, a)], color=st.color, bgcolor=st.bgcolor, link=st.link))
+    return st
+
+
 def expected_pen(st, cfg, links):
     """What the style MEANS on this console: attributes set to True, colours after the documented
     down-conversion (Color.downgrade - C18's subject), link unless legacy windows."""
@@ -41,11 +51,13 @@ def expected_pen(st, cfg, links):
         return dict(attrs=[], fg=proj_color(None), bg=proj_color(None), link=0)
     sysmap = {"standard": ColorSystem.STANDARD, "256": ColorSystem.EIGHT_BIT, "truecolor": ColorSystem.TRUECOLOR, "windows": ColorSystem.WINDOWS}
     cs = sysmap[cfg["system"]]
-    p = dict(attrs=[i + 1 for i, a in enumerate(ATTRS) if getattr(st, a)], link=0)
-    for key, col in (("fg", st.color), ("bg", st.bgcolor)):
+    held = _MEANING.get(id(st))
+    m = held[1] if held is not None and held[0] is st else dict(attrs=[i + 1 for i, a in enumerate(ATTRS) if getattr(st, a)], color=st.color, bgcolor=st.bgcolor, link=st.link)
+    p = dict(attrs=list(m["attrs"]), link=0)
+    for key, col in (("fg", m["color"]), ("bg", m["bgcolor"])):
         p[key] = proj_color(None) if (col is None or cfg["nocolor"]) else proj_color(col.downgrade(cs))
-    if st.link and not cfg["legacy"]:
-        p["link"] = links.setdefault(st.link, len(links) + 1)
+    if m["link"] and not cfg["legacy"]:
+        p["link"] = links.setdefault(m["link"], len(links) + 1)
     return p
 
 
@@ -66,7 +78,7 @@ def random_style(rng, Style):
         return "#%02x%02x%02x" % tuple(rng.choice([0, 1, 95, 128, 254, 255, rng.randrange(256)]) for _ in range(3))
     link = rng.choice([None, None, None, "https://example.org/a", "https://example.org/b?x=1", "https://example.org/c?q=rich;lang=en&x=%20#frag",
                        "file:///tmp/a b;c"])
-    return Style(color=col(), bgcolor=col(), link=link, **kw)
+    return remember(Style(color=col(), bgcolor=col(), link=link, **kw))
 
 
 class TtyFile(io.StringIO):
@@ -150,6 +162,7 @@ def describe(segs, cfgs):
 def run_cases(chk, n, only_decoder=False):
     from rich.style import Style
     recs, meta = [], []
+    _MEANING.clear()
     for _ in range(n):
         segs, cfgs = random_case(chk.rng, Style)
         if only_decoder:
@@ -198,7 +211,7 @@ def rebuild(case):
         else:
             key = repr(s)
             if key not in cache:
-                cache[key] = Style(color=s["color"], bgcolor=s["bgcolor"], link=s["link"], **s["attrs"])
+                cache[key] = remember(Style(color=s["color"], bgcolor=s["bgcolor"], link=s["link"], **s["attrs"]))
             segs.append((t, cache[key], ctl))
     return segs, case["consoles"]
 
